@@ -14,7 +14,7 @@ Writes <seed-dir>/verify.json."""
 import json, os, re, subprocess, sys, time
 
 VERIF = os.path.dirname(os.path.dirname(os.path.abspath(__file__)))
-WT = "/tmp/seedverify"
+WT = os.environ.get("SEEDVERIFY_WT", "/tmp/seedverify")
 
 
 def sh(cmd, **kw):
